@@ -69,6 +69,7 @@ impl<T> Lazy<T> {
             Lazy_::Blackhole(..) => f("blackhole", None),
             Lazy_::Thunk(v) => f("thunk", Some(v)),
             Lazy_::Value(v) => f("value", Some(v)),
+            Lazy_::Failed(_) => f("failed", None),
         }
     }
 }
